@@ -166,7 +166,13 @@ def check_cfg(ctx, fx, cfg):
         n_api += 1
         ctx.require(got == want, "R12.3", "api:%s@%s" % (api, cfg), "%s must go through the %s path only, reaches %s" % (api, "/".join(sorted(want)), sorted(got)), fn=api, site=fx.fn(api)["loc"], detail=sorted(got))
     ctx.floor("R12.3", "APIs classified (%s)" % cfg, n_api, 12)
-    # R12.4
+    # R12.4 (shared with C01: wherever the submit closures / objects of a constructor are written — in place, in a helper, as a
+    # named type — each holds an end of the one queue that constructor created; for the unbounded constructor that queue is
+    # `mpsc::unbounded`, so nothing submitted through it can wait)
+    from props import c01 as _c01
+    core.shared(ctx, "R12.4", _c01.check_single_queue, ctx, fx, cfg, "R12.4", "R12.4")
+    ub = [fn_ for fn_, calls in ctors.items() if calls[0][1]["callee"].endswith("::unbounded")]
+    ctx.require(len(ub) == 1, "R12.4", "unbounded-ctor@" + cfg, "expected exactly one constructor on an mpsc::unbounded queue, found %s" % sorted(ub), detail=sorted(ub))
     for fn_, calls in sorted(ctors.items()):
         if calls[0][1]["callee"].endswith("::unbounded"):
             for kind, cf, key in subs:
